@@ -138,7 +138,7 @@ impl LinkFlowState<role::ReceiverMarker> {
     ensures
         final(self).lock.delivery_count == (if flow.delivery_count is Some { flow.delivery_count->Some_0 } else { old(self).lock.delivery_count }),   // [C09.flow.learn-count] the sender's delivery-count is taken from its flow
         final(self).lock.available == (if flow.available is Some { flow.available->Some_0 } else { old(self).lock.available }),
-        flow.delivery_count is None ==> final(self).lock.link_credit == old(self).lock.link_credit,                      // [C09.flow.credit-is-receivers] only the receiver chooses link-credit ...
+        flow.delivery_count is None ==> final(self).lock.link_credit == old(self).lock.link_credit,                      // [C09.flow.credit-is-receivers] [C01.flow.in-flight-deliveries-keep-their-credit] only the receiver chooses link-credit ... (a sender's flow that reports zero credit -- its answer to a drain -- must not zero the receiver's own credit: the deliveries still queued at the link were sent under credit the receiver issued, and would be refused and lost)
         flow.delivery_count is Some ==> final(self).lock.link_credit == credit_from_peer(old(self).lock.delivery_count, old(self).lock.link_credit, flow.delivery_count->Some_0),   // [C09.flow.sender-advance-consumes-credit] ... but credit the sender reports as used up (it advanced its delivery-count: deliveries sent, or the rest of the credit consumed in answer to drain, AMQP 2.6.7) is no longer outstanding: the delivery-limit delivery-count + link-credit the receiver enforces and advertises is NOT raised by a flow of the sender
         final(self).lock.drain == old(self).lock.drain,
         final(self).lock.initial_delivery_count == old(self).lock.initial_delivery_count,
